@@ -293,6 +293,47 @@ def unit_flatten(S):
     S.fact("resolve_axes/normalises-and-rejects-duplicates", ok, function="lerax.buffer.base_buffer:AbstractBuffer.resolve_axes", what="None -> all axes; negatives normalised; duplicate / out-of-range axes rejected")
 
 
+def native_epoch_replay(model):
+    """R1: the real PPO.train_epoch / train on an id-encoded rollout with train_batch replaced by a recorder (jit disabled): per epoch exactly floor(N/B)*B distinct samples are
+    used, every row keeps its fields together, and the epochs of one update use different shuffles; configurations with N mod num_batches >= N // num_batches included."""
+    from lerax.algorithm.ppo import PPOStats
+    for ne, ns, nb in ((2, 5, 4), (1, 23, 6), (2, 3, 3), (3, 4, 5), (1, 8, 2)):
+        algo = PPO(num_envs=ne, num_steps=ns, num_batches=nb, num_epochs=3)
+        N, B = ne * ns, algo.batch_size
+        ids = jnp.arange(N, dtype=f32).reshape(ne, ns)
+        buf = RolloutBuffer(jnp.stack([ids, ids], -1), ids, ids, ids > 1e9, ids, ids, GPState(ids[..., None]))
+        buf = eqx.tree_at(lambda b: (b.advantages, b.returns), buf, (ids, ids))
+        seen = []
+
+        def rec_batch(self, policy, opt_state, rollout_buffer):
+            seen.append(dict(rewards=np.asarray(rollout_buffer.rewards), obs=np.asarray(rollout_buffer.observations)[:, 0], adv=np.asarray(rollout_buffer.advantages), h=np.asarray(rollout_buffer.states.h)[:, 0]))
+            z = jnp.asarray(0.0)
+            return policy, opt_state, PPOStats(z, z, z, z, z)
+        pol = GenericActorCriticPolicy(__import__("lerax.space", fromlist=["Discrete"]).Discrete(3), __import__("lerax.space", fromlist=["Box"]).Box(-jnp.inf, jnp.inf, (2,)))
+        with extract.patched((PPO, "train_batch", rec_batch)), jax.disable_jit():
+            algo.train(pol, jnp.zeros((3,)), buf, key=jax.random.key(4))
+        per_epoch = len(seen) // 3 if len(seen) % 3 == 0 else None
+        exp_batches = N // B
+        problems = []
+        if per_epoch != exp_batches:
+            problems.append(f"{len(seen)} minibatches in 3 epochs, expected 3 x floor(N/B) = 3 x {exp_batches}")
+        else:
+            orders = []
+            for e_ in range(3):
+                rows = seen[e_ * per_epoch:(e_ + 1) * per_epoch]
+                used = np.concatenate([r["rewards"] for r in rows]) if rows else np.zeros((0,))
+                if len(set(used.tolist())) != len(used) or len(used) != exp_batches * B:
+                    problems.append(f"epoch {e_}: {len(used)} samples used ({len(set(used.tolist()))} distinct), expected {exp_batches * B} distinct")
+                if any(not (np.array_equal(r["rewards"], r["obs"]) and np.array_equal(r["rewards"], r["adv"]) and np.array_equal(r["rewards"], r["h"])) or len(r["rewards"]) != B for r in rows):
+                    problems.append(f"epoch {e_}: a minibatch row mixes fields of different samples or has the wrong size")
+                orders.append(tuple(used.tolist()))
+            if N > 3 and len(set(orders)) == 1:
+                problems.append("all three epochs used the same order (no fresh shuffle)")
+        if problems:
+            return dict(reproduced=True, route="R1 (real PPO.train with train_batch replaced by a recorder, id-encoded rollout)", inputs=dict(num_envs=ne, num_steps=ns, num_batches=nb, batch_size=B, N=N, num_epochs=3), observed=dict(problems=problems[:4]))
+    return dict(reproduced=False, note="5 configurations x 3 epochs: floor(N/B)*B distinct intact samples per epoch, fresh shuffles")
+
+
 def unit_train_epoch(S):
     """train_epoch: the scanned rows are batch_indices(self.batch_size, key) of the flattened buffer, each scan step trains on
     gather(row); train: num_epochs (symbolic) epochs, each on the SAME buffer with its own derived key."""
@@ -328,14 +369,14 @@ def unit_train_epoch(S):
         newp, nost, stats = run(ctx, lambda a, p, o, b_, kk: a.train_epoch(p, o, b_, key=kk), algo, pol, ost, buf, k)
     bi = [c for c in ctx.calls if c.name == "BI#"]
     ok = len(bi) == 1 and len(ctx.scans) == 1
-    S.fact("train_epoch/one-shuffle-one-pass", ok, function=F_TE, what="one batch_indices call (one shuffle) and one pass over its rows per epoch")
+    S.fact("train_epoch/one-shuffle-one-pass", ok, replay=native_epoch_replay, function=F_TE, what="one batch_indices call (one shuffle) and one pass over its rows per epoch")
     if ok:
         rec = ctx.scans[0]
         Kz = ctx.dim(K)
         S.prove("train_epoch/shuffle-uses-batch_size-and-epoch-key", ctx, sand(ir.seq(bi[0].operands[2].scalar(), algo.batch_size), bi[0].operands[0].scalar() == kc,
-                                                                               ir.seq(bi[0].operands[1].scalar(), buf.rewards.at((0, 0)))), function=F_TE,
+                                                                               ir.seq(bi[0].operands[1].scalar(), buf.rewards.at((0, 0)))), replay=native_epoch_replay, function=F_TE,
                 what="indices = flat_buffer.batch_indices(self.batch_size, key=epoch key) of the flattened rollout")
-        S.prove("train_epoch/passes-over-all-rows", ctx, ir.seq(rec.length, Kz), function=F_TE, what="the pass visits every index row exactly once (scan over the rows)")
+        S.prove("train_epoch/passes-over-all-rows", ctx, ir.seq(rec.length, Kz), replay=native_epoch_replay, function=F_TE, what="the pass visits every index row exactly once (scan over the rows)")
         j = z3.Int("j")
         carry = rec.carry_sarrs(j)
         n0 = len(ctx.calls)
